@@ -21,7 +21,7 @@ def hist_of(*key):
     h = 0
     for k in key:
         h = (h * 131 + (int(k) if not isinstance(k, str) else sum(map(ord, k)))) % 1000003
-    return h % 6
+    return h % 8
 
 
 def empty_via_history(h, init, signed, n, f, **cfg):
@@ -67,8 +67,24 @@ def _dirty(x, h, signed, n):
 
 def mk(codes, signed, n, f, dirty_ok=False, **cfg):
     """Fxp holding exactly these codes (scalar when one code, 1-D array otherwise; '2d:' handled by caller).
-    Small-word operands are reached through a content-determined history (see empty_via_history)."""
+    Small-word operands are reached through a content-determined history (see empty_via_history); histories 6 and 7 obtain the
+    operand from a larger object: 6 = an element / a slice of a longer array, 7 = flatten() of a 2-D array (and its element)."""
     h = hist_of(n, f, int(signed), len(codes), *[c % 97 for c in codes[:4]]) if n <= 60 else 0
+    if h in (6, 7) and ('op_out' in cfg or 'op_out_like' in cfg):
+        h = 1       # indexing / flatten deep-copy the configuration, so an op_out target would (rightly) be a copy: not this route
+    if h in (6, 7):
+        lo = -(1 << (n - 1)) if signed else 0
+        pad = [lo, (1 << (n - 1)) - 1 if signed else (1 << n) - 1]
+        if h == 6:
+            big = Fxp(np.array([pad[0]] + list(codes) + [pad[1]], dtype=np.int64), signed, n, f, raw=True, **cfg)
+            x = big[1] if len(codes) == 1 else big[1:1 + len(codes)]
+        else:
+            big = Fxp(np.array([list(codes)], dtype=np.int64), signed, n, f, raw=True, **cfg)
+            x = big.flatten()
+            if len(codes) == 1:
+                x = x[0]
+        assert codes_of(x) == list(codes), 'derivation did not deliver the codes'
+        return x
     if len(codes) == 1:
         if h == 0:
             return Fxp(codes[0], signed, n, f, raw=True, **cfg)
@@ -84,6 +100,17 @@ def mk(codes, signed, n, f, dirty_ok=False, **cfg):
     _dirty(x, h if dirty_ok else 0, signed, n)
     x.set_val(arr, raw=True)
     return x
+
+
+def disturb(x, y):
+    """further results of the same operands are produced (and dropped) before the result under test is observed: a result
+    is a value of its own — nothing that happens afterwards to objects the caller no longer holds may change it (C20, and the
+    flags C04/C07 claim for it)."""
+    for g in (fxpmath.sub, fxpmath.add, fxpmath.mul):
+        try:
+            g(x, y)
+        except Exception:
+            pass
 
 
 def parse_fmt(t, i):
@@ -124,6 +151,7 @@ def exec_AR(t, ia=False):
             z = NPFUNCS[op](x, y)
         else:
             raise ValueError(route)
+        disturb(x, y)
     except Exception as e:
         return [exc_token(e)]
     return observe(z, x, y) if ia else observe(z)
@@ -140,6 +168,11 @@ def exec_AO(t, ia=False):
     r2, o2 = other_mode(r, o)
     try:
         tgt = Fxp(None, st, nt, ft, rounding=r, overflow=o)
+        if kind == 'outlike' and hist_of(nt, ft, len(a), a[0] % 89) % 2 == 1:
+            # a template with a past: its own (sticky) overflow / underflow / inaccuracy flags are raised; a result shaped like it
+            # starts from a clean status
+            _dirty(tgt, 1, st, nt)
+            tgt.status['inaccuracy'] = True
         if route == 'config':
             kw = {'op_out': tgt} if kind == 'out' else {'op_out_like': tgt}
             x = mk(a, sx, nx, fx, rounding=r2, overflow=o2, op_method=meth, dirty_ok=True, **kw)
@@ -156,6 +189,8 @@ def exec_AO(t, ia=False):
             return ['SHARED']
         if kind == 'outlike' and (z.config.rounding, z.config.overflow) != (r, o):
             return ['CONFIG:%s,%s' % (z.config.rounding, z.config.overflow)]
+        if kind == 'outlike':
+            disturb(x, y)
     except Exception as e:
         return [exc_token(e)]
     return observe(z, x, y) if ia else observe(z)
